@@ -179,7 +179,7 @@ def do_probe_paths(world, rep, op):
         _o.poke_observers(rep.g, *_o.window(rep.m))
     require_source_ok(world, rep)
     if not m.removal:
-        return {'out': 'skipped', 'fault': False, 'cls': 'skip', 'keys': []}
+        world.count('probe.paths.accumulative')
     u, v, start, end = op['u'], op.get('v'), op.get('start'), op.get('end')
     sample = op.get('sample', 1)
     ids_all = m.instants()
@@ -257,9 +257,11 @@ def do_probe_all_paths(world, rep, op):
         from . import oracles as _o
         _o.poke_observers(rep.g, *_o.window(rep.m))
     require_source_ok(world, rep)
-    if not m.removal or not m.instants():
+    if not m.instants():
         return {'out': 'skipped', 'fault': False, 'cls': 'skip', 'keys': []}
     start, end, min_t = op.get('start'), op.get('end'), op.get('min_t')
+    if not m.removal:
+        world.count('probe.all.accumulative')
     ids_all = m.instants()
     s_eff = ids_all[0] if start is None else start
     e_eff = ids_all[-1] if end is None else end
@@ -315,9 +317,9 @@ def do_probe_dag(world, rep, op):
         from . import oracles as _o
         _o.poke_observers(rep.g, *_o.window(rep.m))
     require_source_ok(world, rep)
-    if not m.removal:
-        return {'out': 'skipped', 'fault': False, 'cls': 'skip', 'keys': []}
     tag = tag_of(world, 'C15')
+    if not m.removal:
+        world.count('probe.dag.accumulative')
     u, v, start, end = op['u'], op.get('v'), op.get('start'), op.get('end')
     ids_all = m.instants()
     st, r = call(al.temporal_dag, g, u, v, start, end)
